@@ -14,7 +14,7 @@ for d in sorted(glob.glob(os.path.join(ROOT, "seeded", "*"))):
             sig = det[c]["signatures"][0]
             break
     star = " (*)" if "history" in m else ""
-    rows.append("| %s%s | %s | %s | `%s` |" % (m["id"], star, m["needs_to_manifest"].replace("|", "/"), ", ".join(by) or "MISSED", sig[:100].replace("|", "\\|")))
+    rows.append("| %s%s | %s | %s | `%s` |" % (m["id"], star, m["needs_to_manifest"].replace("|", "/"), ", ".join(by) or ("not judged (see note)" if m.get("not_judged") else "MISSED"), sig[:100].replace("|", "\\|")))
     if "history" in m:
         hist.append("* **%s** — %s." % (m["id"], m["history"]))
 p = os.path.join(ROOT, "DESIGN.md")
@@ -27,4 +27,4 @@ else:
     b = s.index("### 11.5")
     s = s[:a] + block + "\n\n" + s[b:]
 open(p, "w").write(s)
-print(len(rows), "seeded changes;", sum(1 for r in rows if "MISSED" in r), "missed")
+print(len(rows), "seeded changes;", sum(1 for r in rows if "MISSED" in r), "missed;", sum(1 for r in rows if "not judged" in r), "not judged")
